@@ -1,6 +1,6 @@
 CONSTANTS MaxAtoms = 4
 MaxOps = 3
-AtomSet = {1, 2, 3, 4, 5, 6, 8, 9, 10, 11, 12, 13, 16, 17, 19, 21, 22, 23, 24, 25, 26, 27, 29, 31, 33, 34, 35, 36, 37}
+AtomSet = {1, 2, 3, 4, 5, 6, 8, 9, 10, 11, 12, 13, 16, 17, 19, 21, 22, 23, 24, 25, 26, 27, 29, 31, 33, 34, 35, 36, 37, 38}
 WithMgr = TRUE
 SPECIFICATION Spec
 INVARIANTS RangesOK ContractOK
